@@ -1,11 +1,12 @@
 (** C02 obligation: every rendering of every well-formed document parses to exactly the document's tree *)
-From OfxV Require Import Base.Prelude Base.SgmlBase Model.Sgml Model.SgmlSpec Proofs.SgmlNest Proofs.SgmlScan Proofs.SgmlFaithful Proofs.SgmlReject.
+From OfxV Require Import Base.Prelude Base.SgmlBase Model.Sgml Model.SgmlSpec Proofs.SgmlNest Proofs.SgmlScan Proofs.SgmlFaithful Proofs.SgmlReject Proofs.SgmlCfg.
 Local Open Scope N_scope.
 (** [r] is document [d] with one wire rendering chosen per node (arbitrary isspace text [ws0] in front, after every
     start tag, around data, after every end tag; data elements with or without end tag; data plain or CDATA-wrapped);
     [ok_rendering] carries the only side conditions: blanks are blanks, CDATA-wrapped data contains no "]]>", and a data
-    element that is the last child of an aggregate of its own name keeps its end tag.  No bound on size or content. *)
-Theorem parse_render_faithful : forall (ws0 : text) (r : rdoc) (d : doc),
-  wf_doc d = true -> ok_rendering ws0 r d -> parse repaired (render ws0 r) = OK (Some (tree_of d)).
-Proof. exact parse_render_faithful_l. Qed.
+    element that is the last child of an aggregate of its own name keeps its end tag.  No bound on size or content.
+    [g]: any source configuration with the repaired regex ([cdata_lazy]); the builder variant is immaterial here. *)
+Theorem parse_render_faithful : forall (g : cfg) (ws0 : text) (r : rdoc) (d : doc), cdata_lazy g = true ->
+  wf_doc d = true -> ok_rendering ws0 r d -> parse g (render ws0 r) = OK (Some (tree_of d)).
+Proof. exact parse_render_faithful_g. Qed.
 Print Assumptions parse_render_faithful.
